@@ -464,3 +464,9 @@ CHECKS["C06"]["rule"] += (" The clause 'execution of any executor never alters p
                           "decided by C03/C09: every terminal state of the explorer must have all buffers, symbolic ones included, byte-identical to the sequential run.")
 CHECKS["C08"]["rule"] += (" Other executors: C03 proves each task-based executor bit-identical to the sequential one for the same grouping, so grouping "
                           "independence of the sequential executor carries over.")
+
+CHECKS["C12"]["builds"] = CHECKS["C12"]["builds"] + [{"name": "hist_C12_omp",
+    "objects": [{"source": "drivers/hist_driver.cpp", "flags": ["-O1", "-g", "-fopenmp", "-DVF_C12", "-DVF_C12_OMP"]}, SCHED_OBJ], "link": ["-ldl"]}]
+CHECKS["C12"]["runs"] = CHECKS["C12"]["runs"] + [{"driver": "hist_C12_omp", "args": ["--mode", "C12"], "slices": 32, "tag": "omp"}]
+CHECKS["C12"]["rule"] += (" The same flag-state search is repeated with the OpenMP executor under the mock runtime, every execute() call scheduled by a named "
+                          "schedule (defer-all FIFO, run-at-creation, defer-all LIFO, inverted priority) on the 3-D trees.")
